@@ -158,6 +158,33 @@ pub fn run<P: ProgProp>(p: &P, ctx: &Ctx) -> Report {
         let failed = built.results.iter().filter(|r| !r.compiled).count();
         let expected_fail = cases.iter().filter(|c| p.render(c).negative).count();
         if cases.len() >= 20 && failed > expected_fail + (cases.len() - expected_fail) / 2 {
+            // ... unless the failing cases carry diagnostics of their own (located inside the case's module, i.e. at its derive
+            // or its items): then the prelude and the dependency build are fine and it is the tree under test that refuses (or
+            // mis-expands) nearly everything — a violation, reported for a few representative cases without shrinking
+            let own: Vec<usize> = (0..cases.len()).filter(|i| !built.results[*i].compiled && !p.render(&cases[*i]).negative && !built.results[*i].errors.is_empty()).collect();
+            let failing_positive = (0..cases.len()).filter(|i| !built.results[*i].compiled && !p.render(&cases[*i]).negative).count();
+            if !own.is_empty() && own.len() * 10 >= failing_positive * 8 {
+                let mut seen: HashSet<String> = HashSet::new();
+                for i in own {
+                    let fe = built.results[i].first_error();
+                    let key: String = fe.chars().filter(|c| !c.is_ascii_digit()).take(60).collect();
+                    if !seen.insert(key) || seen.len() > 5 {
+                        continue;
+                    }
+                    if let Some(f) = findings[i].first() {
+                        rep.violations.push(Violation {
+                            sig: None,
+                            summary: format!("{} ({failed} of {} cases fail alike; not minimised)", f.summary, cases.len()),
+                            case: serde_json::to_value(&cases[i]).unwrap_or(Value::Null),
+                            expected: f.expected.clone(),
+                            observed: f.observed.clone(),
+                        });
+                    }
+                }
+                if !rep.violations.is_empty() {
+                    break;
+                }
+            }
             let first = built.results.iter().find(|r| !r.compiled).map(|r| r.error_text()).unwrap_or_default();
             rep.infra_errors.push(format!(
                 "{failed} of {} cases fail to compile — broken prelude/generator or a tree that does not build; first error: {}",
